@@ -25,7 +25,7 @@
 From Coq Require Import List ZArith NArith Bool.
 From TskVerif Require Import Base.Common Gen.Generated C20.Model C20.Spec C20.HartiganProofs C20.TopProofs
   C20.BoundProofs C20.StackProofs C20.FixProofs C20.ArrayProofs C20.EndToEnd C20.CurrentProofs
-  C20.PyProofs C20.ErrProofs C20.TreeInv C20.Final C20.RenameProofs C20.Refuted C20.Examples.
+  C20.PyProofs C20.ErrProofs C20.TreeInv C20.Final C20.RenameProofs C20.Refuted C20.Examples C20.TotalBounded.
 Import ListNotations.
 
 (* (a) Hartigan's invariant for the sets the code computes — every tree (polytomies, unary
@@ -386,3 +386,11 @@ Theorem mm_oldest_internal_missing_pinned_refuted :
     mm_rose K roots None = Some (a, tr) /\
     forallb (unary_ok false tr) roots = false.
 Proof. exact mm_oldest_internal_missing_refuted_lemma. Qed.
+
+(* Totality and the size bound in one statement (corollary of mm_total / transitions_bounded): on
+   every admissible input a placement is returned, with at most one transition per observed sample. *)
+Theorem mm_total_bounded : forall (K : nat) (roots : list tree) (anc : option N),
+  (1 <= K <= 64)%nat -> forallb (obs_lt K) roots = true ->
+  match anc with Some x => (x < N.of_nat K)%N | None => True end ->
+  exists a tr, mm_model K roots anc = Some (a, tr) /\ (length tr <= forest_num_obs roots)%nat.
+Proof. exact mm_total_bounded_proof. Qed.
